@@ -47,3 +47,5 @@
 ; distinctParamsOf(d): "the parameter names of declaration d are pairwise distinct" -- an otherwise uninterpreted predicate that
 ; contracts constrain only by `defines distinctParamsOf(d) ==> forall k: nameIndex(P[k]) == k` (a conservative definition)
 (declare-fun distinctParamsOf (Int) Bool)
+(define-fun readerPos ((x (Array Int Int))) (Array Int Int) x)
+;@heap readerPos XR_pos
